@@ -46,6 +46,12 @@ SHAPES = [
     "select * from t order by 1, a desc nulls first, b nulls last", "select * from t group by 1 having 1", "select * from t limit 0 offset 0",
     "select a, ? as x from t where b = ?", "select ? as p", "select :v as x from t", "select (select 1) as s, (1, 2) as tup from t",
     "select a as `x y`, 'lit' as l, 1 as one, null as n, true as b from t", "select -? from t", "select ? + 1 as p1 from t",
+    "select cast(a as foo) from t1 union select a from t2 order by a limit 5", "select count(a, b) from t1 union all select a from t2 limit 3",
+    "select a from t1 union select cast(a as foo) from t2 order by a limit 5 offset 1", "select a from t1 intersect select count(a, b) from t2 order by a",
+    "select * from (select cast(a as foo) from t1 union select a from t2 order by a limit 5) as s",
+    "with c as (select a from t1 union select (a, b) = (1, 2) from t2 limit 2) select * from c",
+    "insert into t (a) select cast(a as foo) from t1 union select a from t2 limit 1", "select a from t1 union select a from t2 order by a limit 5",
+    "select a from t1 except select a from t2 order by a desc limit 2 offset 1",
     "select native_query from int1 (select 1)", "select * from int1 (select * from t where a = 'x')",
 ]
 
